@@ -8,8 +8,8 @@ set -u
 target="${1:?target}"; secs="${2:?seconds}"; seed="${3:?seed}"; mode="${4:-seeded}"
 cd /verif/fuzz || exit 2
 export CARGO_NET_OFFLINE=true
-if ! cargo +nightly fuzz build -s none --fuzz-dir /verif/fuzz "$target" > /tmp/c14_fuzz_build_$target.log 2>&1; then
-    tail -20 /tmp/c14_fuzz_build_$target.log
+if ! cargo +nightly fuzz build -s none --fuzz-dir /verif/fuzz "$target" > /dev/shm/c14_fuzz_build_$target.log 2>&1; then
+    tail -20 /dev/shm/c14_fuzz_build_$target.log
     echo "C14-FUZZ target=$target seed=$seed mode=$mode build=failed"
     exit 2
 fi
